@@ -1,4 +1,5 @@
 """C02 - the safe API yields only valid positions; a move is accepted iff it is legal."""
+from . import shared
 from . import apirules, sanrules, hashrules, attackrules, validaterules, genrules, witness
 from .common import sim_rules
 
@@ -60,5 +61,7 @@ def run(ctx):
         "castling be accepted with no rook to castle with",
     ]
     _castlingrules.update_castling_rule(ctx, facts, "M9u")
+    shared.hash_component(ctx, facts, "M9", "re-validating the raw contents reproduces the position identically, hash and sets included")
+    attackrules.pinned_rule(ctx, facts, "M7n")
     witness.cf_rule(ctx, 'M6w', ('cf/C02/', 'cf/C19/unsafe-make', 'cf/C19/unsafe-new'),
                     'safe code outside the crate cannot reach the unchecked make/constructors or the raw board inside a Board (compile-fail witnesses)')
